@@ -18,6 +18,7 @@ import (
 	"os"
 	"path"
 	"path/filepath"
+	"runtime/pprof"
 	"sort"
 	"strings"
 	"syscall"
@@ -219,6 +220,10 @@ type env struct {
 	dir    string
 	now    uint32
 	cnt    map[string]int
+	// last is the snapshot taken after the previous request; it is reused as
+	// the "before" snapshot while nothing ran in between.
+	last      snap
+	lastValid bool
 }
 
 var t0 = time.Date(2025, 3, 10, 1, 0, 0, 0, time.UTC)
@@ -573,11 +578,16 @@ func (e *env) check(cs *reqCase) (vkey, vdesc string, skipped bool) {
 		if err := home.VerifC11AddSession(tokExpired, home.VerifC11User, uint32(t0.Unix())+60); err != nil {
 			return "engine", err.Error(), false
 		}
+		e.lastValid = false
 	}
 	var before snap
 	if checkState {
-		before = e.snapshot()
+		if !e.lastValid {
+			e.last = e.snapshot()
+		}
+		before = e.last
 	}
+	e.lastValid = false
 	o := serve(cs)
 	c.Count("requests", 1)
 	cs.Status, cs.Location, cs.Ran = o.status, o.location, o.ran
@@ -591,7 +601,10 @@ func (e *env) check(cs *reqCase) (vkey, vdesc string, skipped bool) {
 	rkind, isRejected := rejected(cs, o)
 	ran := len(o.ran) > 0
 	inferredRun := rt.Src != "callback" && !isRejected && o.status != http.StatusMethodNotAllowed && o.status != http.StatusUnsupportedMediaType && !(matched == "" && o.status == http.StatusNotFound)
-	c.Distinct("outcomes", fmt.Sprintf("%s|%s|%v|%v|%v|%s|%d|%v", rt.Src, cc, public, wrongMethod, badCT, rkind, o.status, ran))
+	okey := fmt.Sprintf("src=%s cred=%s public=%v wrongMethod=%v badCT=%v refusal=%s status=%d probeRan=%v", rt.Src, cc, public, wrongMethod, badCT, rkind, o.status, ran)
+	if c.Distinct("outcomes", okey) && os.Getenv("VERIF_C11_DEBUG") != "" {
+		fmt.Fprintf(os.Stderr, "OUTCOME %s   e.g. %s %s cred=%s ct=%s body=%s -> %s\n", okey, cs.Method, cs.Target, cs.Cred, cs.CT, cs.Body, matched)
+	}
 
 	switch {
 	case rt.PreInstall:
@@ -654,6 +667,7 @@ func (e *env) check(cs *reqCase) (vkey, vdesc string, skipped bool) {
 
 	if checkState {
 		after := e.snapshot()
+		e.last, e.lastValid = after, true
 		if d := before.diff(after); d != "" {
 			return fail("unauth-side-effect", fmt.Sprintf("a request with credentials %q changed state: %s", cs.Cred, d))
 		}
@@ -668,6 +682,7 @@ func (e *env) check(cs *reqCase) (vkey, vdesc string, skipped bool) {
 		}
 		// ... and a second attempt is refused like the first.
 		if !public && !rt.PreInstall {
+			e.lastValid = false
 			o2 := serve(cs)
 			c.Count("requests", 1)
 			if _, rej2 := rejected(cs, o2); len(o2.ran) > 0 || !rej2 && !(matched == "" && o2.status == http.StatusNotFound) {
@@ -714,8 +729,10 @@ func (e *env) staticFindings() (out []staticFinding) {
 			continue
 		}
 		if e.mode == "install" && e.routes[s.Pattern] == nil {
-			out = append(out, staticFinding{"static:pattern-not-in-mux:" + s.Pattern,
-				fmt.Sprintf("%s registers %q but the assembled mux does not contain it: the route is not exercised", s.site(), s.Pattern)})
+			// Incomplete coverage, not a violation by itself (a direct
+			// unprotected registration is one, below).
+			e.c.NotExhaustive(fmt.Sprintf("%s registers %q but the assembled mux does not contain it: the route is not exercised dynamically", s.site(), s.Pattern))
+			e.c.Count("static_patterns_not_in_mux", 1)
 		}
 		if s.Kind == "callback" && s.MethodKnown && s.Method == "" && !fixedPublic[s.Pattern] {
 			out = append(out, staticFinding{"static:public-registration:" + s.Pattern,
@@ -768,6 +785,12 @@ func modeOfShard(i, n int) (mode string, sub, subN int) {
 }
 
 func run(c *lib.Ctx) {
+	if pf := os.Getenv("VERIF_C11_PROF"); pf != "" {
+		if f, err := os.Create(fmt.Sprintf("%s.%d", pf, c.ShardI)); err == nil {
+			_ = pprof.StartCPUProfile(f)
+			defer pprof.StopCPUProfile()
+		}
+	}
 	mode, sub, subN := modeOfShard(c.ShardI, c.ShardN)
 	if mode == "" {
 		// A single process can assemble one instance only (package-level
@@ -843,7 +866,7 @@ func run(c *lib.Ctx) {
 					}
 					// Byte-wise comparison of everything but the session file.
 					if full := e.dirSig(true); full != full0 {
-						c.Violation("unauth-side-effect:"+p, fmt.Sprintf("files under the work directory changed while exercising %s %s (%s): before=%s after=%s", m, target, p, full0, full),
+						c.Violation("files-changed:"+p, fmt.Sprintf("files under the work directory changed while exercising %s %s (%s): before=%s after=%s", m, target, p, full0, full),
 							reqCase{Mode: mode, Pattern: p, Base: base, Spell: sp, Method: m})
 						full0 = full
 					}
